@@ -18,6 +18,7 @@ import (
 	"github.com/git-lfs/git-lfs/v3/errors"
 	"github.com/git-lfs/git-lfs/v3/filepathfilter"
 	"github.com/git-lfs/git-lfs/v3/tr"
+	"github.com/git-lfs/git-lfs/v3/verifhook"
 )
 
 // FileOrDirExists determines if a file/dir exists, returns IsDir() results too.
@@ -453,10 +454,12 @@ func SetFileWriteFlag(path string, writeEnabled bool) error {
 // This function is designed to handle only temporary files that will be renamed
 // into place later somewhere within the Git repository.
 func TempFile(dir, pattern string, cfg repositoryPermissionFetcher) (*os.File, error) {
+	verifhook.Crash("tempfile.create")
 	tmp, err := os.CreateTemp(dir, pattern)
 	if err != nil {
 		return nil, err
 	}
+	verifhook.Crash("tempfile.created")
 
 	perms := cfg.RepositoryPermissions(false)
 	err = os.Chmod(tmp.Name(), perms)
